@@ -62,3 +62,27 @@ def run(ctx, res, n):
                                           'real': real, 'model': ans})
         if len(raw) >= 2:
             res.distinct.add(('authoropts', str(raw), who, key))
+
+
+def replay(ctx, res, inp):
+    """one recorded case: {'pr_author_options': [[user, [keys]], ...], 'author', 'key'}"""
+    from bert_e.settings import SettingsSchema, PrAuthorsOptions
+    from bert_e.exceptions import IncorrectSettingsFile
+    field = SettingsSchema().fields['pr_author_options']
+    keys = list(PrAuthorsOptions.BYPASS_LIST)
+    raw = [(u, list(ns)) for u, ns in inp['pr_author_options']]
+    who, key = inp['author'], inp['key']
+    try:
+        opts = field.deserialize(dict(raw))
+        real = '1' if make_job({}, {'pr_author_options': opts}, author=who).author_bypass.get(key, False) else '0'
+    except IncorrectSettingsFile:
+        real = 'IncorrectSettingsFile'
+    res.evaluations += 1
+    own = dict(raw).get(who)
+    bad = any(n not in keys for _, ns in raw for n in ns)
+    want = 'IncorrectSettingsFile' if bad else ('1' if (own is not None and key in own) else '0')
+    if real != want:
+        res.oracle_failures.append({'key': 'author-options', 'input': inp, 'observation': real,
+                                    'what': 'per-author bypass %s for %s: got %s, its own entry says %s'
+                                            % (key, who, real, want)})
+    return res
